@@ -24,7 +24,7 @@ RULE = (
     "registered one} or no arguments, x OnCompletion in {0,1,2,4,5} x application id in {0, non-zero}; plus the clear-state "
     "program. Oracle: a dispatch model written from the property statement: the expected handler's tag is the only tag "
     "logged and the call is approved; otherwise no tag and the call is rejected or fails. Registrations that can never "
-    "run (all NEVER) or are duplicates must be refused at registration. non-trivial = router with >= 2 handlers and >= 1 "
+    "run (all NEVER) or are duplicates (same signature, or two signatures with one selector - brute-forced pairs) must be refused at registration; configurations include the uniform ones (all five OnCompletions ALL / CALL / CREATE). non-trivial = router with >= 2 handlers and >= 1 "
     "non-ALL config; evaluations counts (router, call) pairs; distinct by router configuration."
 )
 ASSUMPTIONS = ["vf/avm semantics", "calls carry exactly the declared number of arguments (arity mismatches are outside the statement)"]
@@ -115,6 +115,9 @@ def never_runnable(rc):
         s = RB.registered_signature(m)
         if s in sigs:
             return "duplicate signature"
+        if RB.selector(s) in [RB.selector(x) for x in sigs]:
+            # two different signatures with the same 4-byte selector cannot both be dispatched to "their" handler
+            return "two signatures with the same selector"
         sigs.append(s)
     return None
 
@@ -221,6 +224,11 @@ def shrinks(case):
 
 
 CCS = ["NEVER", "CALL", "CREATE", "ALL"]
+COLLIDING = [
+    ("m8916", "m12207", [], None), ("m77541", "m131918", [], None),
+    ("m122731", "m149491", [["uint", 64]], ["uint", 64]), ("m52739", "m180299", [["uint", 64]], ["uint", 64]),
+    ("m34421", "m50719", [["string"], ["bool"]], ["string"]), ("m4749", "m73158", [["string"], ["bool"]], ["string"]),
+]
 ARGS = [["uint", 64], ["uint", 8], ["bool"], ["string"], ["address"], ["byte"]]
 
 
@@ -235,6 +243,10 @@ def router_strategy(draw, allow_bad=True):
         if via == "add":
             if k == 0:
                 m["config"] = None  # default
+            elif k == 1:
+                # uniform configs: the same CallConfig for every OnCompletion (all-ALL makes the condition the constant 1)
+                cc = draw(st.sampled_from(["ALL", "ALL", "CALL", "CREATE"]))
+                m["config"] = {oc: cc for oc in RB.OCS}
             else:
                 cfg = {}
                 for oc in RB.OCS:
@@ -247,6 +259,9 @@ def router_strategy(draw, allow_bad=True):
         else:
             if k == 0:
                 m["config"] = {}
+            elif k == 1:
+                cc = draw(st.sampled_from(["ALL", "ALL", "CALL", "CREATE"]))
+                m["config"] = {oc: cc for oc in RB.OCS}
             else:
                 cfg = {}
                 for oc in RB.OCS:
@@ -264,6 +279,16 @@ def router_strategy(draw, allow_bad=True):
         methods.append(m)
     if allow_bad and nm >= 2 and draw(st.integers(0, 14)) == 0:
         methods[1] = dict(methods[0], via="add")  # duplicate signature
+    elif allow_bad and nm >= 2 and draw(st.integers(0, 14)) == 0:
+        # two different signatures whose selectors collide (pairs found by brute force over m<i><shape>)
+        a, b, args, ret = draw(st.sampled_from(COLLIDING))
+        i, j = draw(st.sampled_from([(0, 1), (1, 0), (0, nm - 1)]))
+        if i != j:
+            for idx, nme in ((i, a), (j, b)):
+                methods[idx] = dict(methods[idx], name=nme, args=list(args), ret=ret)
+                methods[idx].pop("override", None)
+                methods[idx].pop("alias", None)
+                methods[idx].pop("presig", None)
     bare = {}
     for oc in RB.OCS:
         if draw(st.integers(0, 2)) == 0:
